@@ -777,594 +777,4 @@ theorem mem_intercalate {sep x : Nat} {ls : List (List Nat)} (h : x ∈ [sep].in
         · exact Or.inl h
         · exact Or.inr ⟨l, by simp [hl], hx⟩
 
-
-/-! ### path: render, split, decode -/
-
-theorem pathText_parts (env : Env) (parts : List Text) (hne : parts ≠ [])
-    (hs : ∀ s ∈ parts, ∀ x ∈ env.nfc s, isScalar x = true) :
-    ((pathText env true parts).splitOn 47).map maybeUnquote = parts.map env.nfc := by
-  unfold pathText
-  rw [List.splitOn_intercalate]
-  · rw [List.map_map]
-    apply List.map_congr_left
-    intro s hsm
-    simp only [Function.comp, quotePart, if_true]
-    exact maybeUnquote_quoteFull .path env.nfc s (hs s hsm)
-  · intro l hl
-    rw [List.mem_map] at hl
-    obtain ⟨s, hsm, rfl⟩ := hl
-    intro h47
-    have := quoteFull_stop .path env.nfc s (hs s hsm) 47 (by simpa [quotePart] using h47)
-    exact (stop_path this).2 rfl
-  · simpa using hne
-
-theorem pathText_chars (env : Env) (parts : List Text)
-    (hs : ∀ s ∈ parts, ∀ x ∈ env.nfc s, isScalar x = true) :
-    ∀ ch ∈ pathText env true parts, notIn pathStop ch = true := by
-  intro ch hch
-  unfold pathText at hch
-  rcases mem_intercalate hch with h | ⟨l, hl, hx⟩
-  · subst h; exact stops_ok.2.2.2.2.2.2.1
-  · rw [List.mem_map] at hl
-    obtain ⟨s, hsm, rfl⟩ := hl
-    exact (stop_path (quoteFull_stop .path env.nfc s (hs s hsm) ch (by simpa [quotePart] using hx))).1
-
-theorem quotePart_nil (c : Comp) (nfc : Text → Text) (hnil : nfc [] = []) : quotePart c nfc true [] = [] := by
-  simp [quotePart, quoteFull, utf8, hnil]
-
-theorem pathText_abs (env : Env) (hnil : env.nfc [] = []) (rest : List Text) :
-    pathText env true ([] :: rest) = [] ∨ (pathText env true ([] :: rest)).head? = some 47 := by
-  unfold pathText
-  cases rest with
-  | nil => left; simp [quotePart_nil _ _ hnil]
-  | cons b rest =>
-    right
-    simp only [List.map_cons]
-    rw [List.intercalate_cons_cons, quotePart_nil _ _ hnil]
-    simp
-
-
-/-! ### query: render, split, decode -/
-
-/-- the texts of one query pair are encodable after normalisation -/
-def PairScalar (nfc : Text → Text) (kv : Text × Option Text) : Prop :=
-  (∀ x ∈ nfc kv.1, isScalar x = true) ∧ ∀ v, kv.2 = some v → ∀ x ∈ nfc v, isScalar x = true
-
-def normPair (nfc : Text → Text) (kv : Text × Option Text) : Text × Option Text := (nfc kv.1, kv.2.map nfc)
-
-theorem pairText_chars (env : Env) (kv : Text × Option Text) (hs : PairScalar env.nfc kv) :
-    ∀ ch ∈ pairText env true kv, notIn queryStop ch = true ∧ ch ≠ 38 ∧ ch ≠ 59 ∧ ch ≠ 43 := by
-  intro ch hch
-  obtain ⟨k, v⟩ := kv
-  cases v with
-  | none =>
-    simp only [pairText, quotePart, if_true] at hch
-    have := stop_query (quoteFull_stop .query env.nfc k hs.1 ch hch)
-    exact ⟨this.1, this.2.1, this.2.2.1, this.2.2.2.2⟩
-  | some v =>
-    simp only [pairText, quotePart, if_true, List.mem_append, List.mem_cons] at hch
-    rcases hch with h | h | h
-    · have := stop_query (quoteFull_stop .query env.nfc k hs.1 ch h)
-      exact ⟨this.1, this.2.1, this.2.2.1, this.2.2.2.2⟩
-    · subst h; exact ⟨stops_ok.2.2.2.2.2.2.2.2.2, by decide, by decide, by decide⟩
-    · have := stop_query (quoteFull_stop .query env.nfc v (hs.2 v rfl) ch h)
-      exact ⟨this.1, this.2.1, this.2.2.1, this.2.2.2.2⟩
-
-theorem parsePair_pairText (env : Env) (kv : Text × Option Text) (hs : PairScalar env.nfc kv) :
-    parsePair (pairText env true kv) = normPair env.nfc kv := by
-  obtain ⟨k, v⟩ := kv
-  have hk := quoteFull_stop .query env.nfc k hs.1
-  have hk61 : ∀ x ∈ quoteFull Comp.query.map env.nfc k, x ≠ 61 := fun x hx => (stop_query (hk x hx)).2.2.2.1
-  have hk43 : 43 ∉ quoteFull Comp.query.map env.nfc k := fun h => (stop_query (hk 43 h)).2.2.2.2 rfl
-  have hkasc := quoteFull_ascii .query env.nfc k hs.1
-  have huk : unquote (quoteFull Comp.query.map env.nfc k) = env.nfc k := unquote_quoteFull .query env.nfc k hs.1
-  cases v with
-  | none =>
-    simp only [pairText, quotePart, if_true, parsePair, normPair, Option.map_none]
-    have hc : (quoteFull Comp.query.map env.nfc k).contains 61 = false := by
-      simp only [List.contains_eq_mem, decide_eq_false_iff_not]
-      intro h; exact hk61 61 h rfl
-    rw [before_none hk61, plusToSpace_id _ hk43, huk, hc]
-    simp
-  | some v =>
-    have hv := quoteFull_stop .query env.nfc v (hs.2 v rfl)
-    have hv43 : 43 ∉ quoteFull Comp.query.map env.nfc v := fun h => (stop_query (hv 43 h)).2.2.2.2 rfl
-    have huv : unquote (quoteFull Comp.query.map env.nfc v) = env.nfc v := unquote_quoteFull .query env.nfc v (hs.2 v rfl)
-    simp only [pairText, quotePart, if_true, parsePair, normPair, Option.map_some]
-    rw [before_append hk61, after_append hk61, plusToSpace_id _ hk43, huk, plusToSpace_id _ hv43, huv]
-    have hc : (quoteFull Comp.query.map env.nfc k ++ 61 :: quoteFull Comp.query.map env.nfc v).contains 61 = true := by simp
-    rw [hc]
-    simp only [if_true]
-    split
-    · rename_i h
-      rw [quoteFull_eq_nil .query env.nfc v (hs.2 v rfl) h]
-    · rfl
-
-theorem pairText_ne_nil (env : Env) (kv : Text × Option Text) (hs : PairScalar env.nfc kv)
-    (hok : ¬ (env.nfc kv.1 = [] ∧ kv.2 = none)) : pairText env true kv ≠ [] := by
-  obtain ⟨k, v⟩ := kv
-  cases v with
-  | none =>
-    simp only [pairText, quotePart, if_true]
-    intro h
-    exact hok ⟨quoteFull_eq_nil .query env.nfc k hs.1 h, rfl⟩
-  | some v => simp [pairText]
-
-theorem flatMap_splitOn_single (ls : List Text) (h : ∀ l ∈ ls, 59 ∉ l) :
-    ls.flatMap (fun s => s.splitOn 59) = ls := by
-  induction ls with
-  | nil => rfl
-  | cons a rest ih =>
-    simp only [List.flatMap_cons]
-    rw [List.splitOn_eq_singleton (h a (by simp)), ih (fun l hl => h l (by simp [hl]))]
-    rfl
-
-theorem parseQsl_nil : parseQsl [] = [] := by
-  simp [parseQsl, nonEmpty]
-
-theorem parseQsl_queryText (env : Env) (q : List (Text × Option Text))
-    (hs : ∀ kv ∈ q, PairScalar env.nfc kv)
-    (hok : ∀ kv ∈ q, ¬ (env.nfc kv.1 = [] ∧ kv.2 = none)) :
-    parseQsl (queryText env true q) = q.map (normPair env.nfc) := by
-  by_cases hq : q = []
-  · subst hq; simp [queryText, parseQsl_nil]
-  · unfold parseQsl queryText
-    rw [List.splitOn_intercalate]
-    · rw [flatMap_splitOn_single]
-      · have hf : (q.map (pairText env true)).filter nonEmpty = q.map (pairText env true) := by
-          rw [List.filter_eq_self]
-          intro l hl
-          rw [List.mem_map] at hl
-          obtain ⟨kv, hkv, rfl⟩ := hl
-          have := pairText_ne_nil env kv (hs kv hkv) (hok kv hkv)
-          cases hp : pairText env true kv with
-          | nil => exact absurd hp this
-          | cons _ _ => simp [nonEmpty]
-        rw [hf, List.map_map]
-        apply List.map_congr_left
-        intro kv hkv
-        exact parsePair_pairText env kv (hs kv hkv)
-      · intro l hl
-        rw [List.mem_map] at hl
-        obtain ⟨kv, hkv, rfl⟩ := hl
-        intro h59
-        exact (pairText_chars env kv (hs kv hkv) 59 h59).2.2.1 rfl
-    · intro l hl
-      rw [List.mem_map] at hl
-      obtain ⟨kv, hkv, rfl⟩ := hl
-      intro h38
-      exact (pairText_chars env kv (hs kv hkv) 38 h38).2.1 rfl
-    · simpa using hq
-
-theorem queryText_chars (env : Env) (q : List (Text × Option Text))
-    (hs : ∀ kv ∈ q, PairScalar env.nfc kv) :
-    ∀ ch ∈ queryText env true q, notIn queryStop ch = true := by
-  intro ch hch
-  unfold queryText at hch
-  rcases mem_intercalate hch with h | ⟨l, hl, hx⟩
-  · subst h; exact stops_ok.2.2.2.2.2.2.2.2.1
-  · rw [List.mem_map] at hl
-    obtain ⟨kv, hkv, rfl⟩ := hl
-    exact (pairText_chars env kv (hs kv hkv) ch hx).1
-
-
-/-! ### authority: render and parse back -/
-
-/-- a host character that cannot be mistaken for a delimiter of the authority -/
-def hostChar (c : Nat) : Bool := c < 128 && notIn authStop c && c != 64 && c != 58 && c != 91
-
-theorem hostChar_spec {c : Nat} (h : hostChar c = true) :
-    c < 128 ∧ notIn authStop c = true ∧ c ≠ 64 ∧ c ≠ 58 ∧ c ≠ 91 := by
-  simp only [hostChar, Bool.and_eq_true, decide_eq_true_eq, bne_iff_ne, ne_eq] at h
-  exact ⟨h.1.1.1.1, h.1.1.1.2, h.1.1.2, h.1.2, h.2⟩
-
-theorem auth_stops_ok : notIn authStop 58 = true ∧ notIn authStop 64 = true ∧
-    authStop.all (fun c => !isDigit c) = true := by decide
-
-theorem digit_notIn_authStop {c : Nat} (h : isDigit c = true) : notIn authStop c = true := by
-  have := auth_stops_ok.2.2
-  rw [List.all_eq_true] at this
-  simp only [notIn, Bool.not_eq_true', List.contains_eq_mem, decide_eq_false_iff_not]
-  intro hm
-  have := this c hm
-  simp [h] at this
-
-def uiText (env : Env) (u : URL) : Text :=
-  if u.username ≠ [] ∨ u.password ≠ [] then
-    quoteFull userinfoMap env.nfc u.username ++
-      (if u.password ≠ [] then 58 :: quoteFull userinfoMap env.nfc u.password else []) ++ [64]
-  else []
-
-def portText (u : URL) : Text :=
-  match u.port with
-  | some p => if p ≠ 0 ∧ some p ≠ (defaultPort u.scheme).map Int.ofNat then 58 :: showInt p else []
-  | none => []
-
-theorem authority_full (env : Env) (u : URL) (hne : u.host ≠ []) (hfam : u.family ≠ .inet6)
-    (henc : env.idnaEnc u.host = some u.host) :
-    authority env true u = .ok (uiText env u ++ u.host ++ portText u) := by
-  unfold authority uiText portText
-  simp only [hne, if_false, hfam, if_true, henc]
-  rfl
-
-/-- the port is absent, or a positive number different from the scheme's default -/
-def PortOK (u : URL) : Prop :=
-  u.port = none ∨ ∃ p : Nat, u.port = some (Int.ofNat p) ∧ 0 < p ∧ some p ≠ defaultPort u.scheme
-
-theorem portText_cases (u : URL) (h : PortOK u) :
-    (u.port = none ∧ portText u = []) ∨
-    (∃ p : Nat, u.port = some (Int.ofNat p) ∧ portText u = 58 :: showNat p) := by
-  rcases h with h | ⟨p, hp, hpos, hd⟩
-  · left; simp [portText, h]
-  · right
-    refine ⟨p, hp, ?_⟩
-    unfold portText
-    rw [hp]
-    have h0 : (Int.ofNat p) ≠ 0 := by
-      intro h; have : p = 0 := by exact Int.ofNat_eq_zero.mp h
-      omega
-    have h1 : some (Int.ofNat p) ≠ (defaultPort u.scheme).map Int.ofNat := by
-      intro h
-      cases hdp : defaultPort u.scheme with
-      | none => rw [hdp] at h; simp at h
-      | some d =>
-        rw [hdp] at h hd
-        simp only [Option.map_some, Option.some.injEq] at h
-        have : p = d := Int.ofNat.inj h
-        exact hd (by rw [this])
-    simp only []
-    rw [if_pos ⟨h0, h1⟩]
-    rfl
-
-theorem splitHostPort_render (u : URL) (hne : u.host ≠ []) (hh : ∀ c ∈ u.host, hostChar c = true)
-    (hp : PortOK u) : splitHostPort (u.host ++ portText u) = .ok (u.host, u.port) := by
-  have h58 : ∀ x ∈ u.host, x ≠ 58 := fun x hx => (hostChar_spec (hh x hx)).2.2.2.1
-  rcases portText_cases u hp with ⟨hn, ht⟩ | ⟨p, hpp, ht⟩
-  · rw [ht, hn]
-    unfold splitHostPort
-    have : u.host.contains 58 = false := by
-      simp only [List.contains_eq_mem, decide_eq_false_iff_not]
-      intro h; exact h58 58 h rfl
-    simp only [List.append_nil, this]
-    rfl
-  · rw [ht, hpp]
-    unfold splitHostPort
-    have hc : (u.host ++ 58 :: showNat p).contains 58 = true := by simp
-    have hb : before 58 (u.host ++ 58 :: showNat p) = u.host := before_append h58
-    have ha : after 58 (u.host ++ 58 :: showNat p) = showNat p := after_append h58
-    have hhead : ((before 58 (u.host ++ 58 :: showNat p)).head? = some 91 &&
-        (after 58 (u.host ++ 58 :: showNat p)).contains 93) = false := by
-      rw [hb]
-      cases hhost : u.host with
-      | nil => exact absurd hhost hne
-      | cons x xs =>
-        have : x ≠ 91 := (hostChar_spec (hh x (by rw [hhost]; simp))).2.2.2.2
-        simp [this]
-    simp only [hc, Bool.not_true, Bool.false_eq_true, if_false, hhead]
-    rw [ha, hb]
-    simp [parsePort, pyInt_showNat]
-
-theorem mem_hostinfo {u : URL} (hh : ∀ c ∈ u.host, hostChar c = true) (hp : PortOK u) :
-    ∀ x ∈ u.host ++ portText u, x ≠ 64 ∧ notIn authStop x = true := by
-  intro x hx
-  rw [List.mem_append] at hx
-  rcases hx with hx | hx
-  · have := hostChar_spec (hh x hx); exact ⟨this.2.2.1, this.2.1⟩
-  · rcases portText_cases u hp with ⟨_, ht⟩ | ⟨p, _, ht⟩
-    · rw [ht] at hx; simp at hx
-    · rw [ht] at hx
-      simp only [List.mem_cons] at hx
-      rcases hx with rfl | hx
-      · exact ⟨by decide, auth_stops_ok.1⟩
-      · have hd := showNat_digits p x hx
-        refine ⟨?_, digit_notIn_authStop hd⟩
-        simp [isDigit] at hd; omega
-
-/-- what `parse_url` finds in the rendered authority: the quoted user and password, the host,
-    its family, the port -/
-theorem parseAuthority_render (env : Env) (u : URL) (hne : u.host ≠ [])
-    (hh : ∀ c ∈ u.host, hostChar c = true) (hp : PortOK u)
-    (hfam : u.family = if env.fam4 u.host then .inet else .none)
-    (hsu : ∀ x ∈ env.nfc u.username, isScalar x = true)
-    (hsp : ∀ x ∈ env.nfc u.password, isScalar x = true) :
-    parseAuthority env (uiText env u ++ (u.host ++ portText u)) =
-      .ok ⟨if u.username ≠ [] ∨ u.password ≠ [] then quoteFull userinfoMap env.nfc u.username else [],
-           if u.password ≠ [] then quoteFull userinfoMap env.nfc u.password else [],
-           u.family, u.host, u.port⟩ := by
-  have hi := mem_hostinfo hh hp
-  have hi64 : ∀ x ∈ u.host ++ portText u, x ≠ 64 := fun x hx => (hi x hx).1
-  have hne' : u.host ++ portText u ≠ [] := by simp [hne]
-  have hqu := quoteFull_stop .userinfo env.nfc u.username hsu
-  have hqp := quoteFull_stop .userinfo env.nfc u.password hsp
-  have hhost : parseHost env u.host = .ok (u.family, u.host) := by
-    unfold parseHost
-    have hm : 58 ∉ u.host := by
-      intro h; exact (hostChar_spec (hh 58 h)).2.2.2.1 rfl
-    simp [hne, hm, hfam]
-  unfold parseAuthority
-  by_cases hui : u.username ≠ [] ∨ u.password ≠ []
-  · -- userinfo present
-    have hu58 : ∀ x ∈ quoteFull Comp.userinfo.map env.nfc u.username, x ≠ 58 :=
-      fun x hx => (stop_userinfo (hqu x hx)).2.2
-    by_cases hpw : u.password ≠ []
-    · have e : uiText env u ++ (u.host ++ portText u) =
-          (quoteFull Comp.userinfo.map env.nfc u.username ++ 58 :: quoteFull Comp.userinfo.map env.nfc u.password)
-            ++ 64 :: (u.host ++ portText u) := by
-        simp [uiText, hui, hpw, Comp.map]
-      rw [e]
-      simp only [rafter_append hi64, rbefore_append hi64]
-      have hc : ((quoteFull Comp.userinfo.map env.nfc u.username ++ 58 :: quoteFull Comp.userinfo.map env.nfc u.password)
-            ++ 64 :: (u.host ++ portText u)).contains 64 = true := by simp
-      simp only [hc, if_true, hne', if_false, before_append hu58, after_append hu58]
-      rw [splitHostPort_render u hne hh hp]
-      simp only [hhost]
-      simp [hui, hpw, Comp.map]
-    · have hpw' : u.password = [] := by simpa using hpw
-      have hun : u.username ≠ [] := by
-        rcases hui with h | h
-        · exact h
-        · exact absurd hpw' h
-      have e : uiText env u ++ (u.host ++ portText u) =
-          quoteFull Comp.userinfo.map env.nfc u.username ++ 64 :: (u.host ++ portText u) := by
-        simp [uiText, hun, hpw', Comp.map]
-      rw [e]
-      simp only [rafter_append hi64, rbefore_append hi64]
-      have hc : (quoteFull Comp.userinfo.map env.nfc u.username ++ 64 :: (u.host ++ portText u)).contains 64 = true := by
-        simp
-      simp only [hc, if_true, hne', if_false, before_none hu58, after_none hu58]
-      rw [splitHostPort_render u hne hh hp]
-      simp only [hhost]
-      simp [hun, hpw', Comp.map]
-  · have e : uiText env u ++ (u.host ++ portText u) = u.host ++ portText u := by
-      simp [uiText, hui]
-    rw [e]
-    have hc : (u.host ++ portText u).contains 64 = false := by
-      simp only [List.contains_eq_mem, decide_eq_false_iff_not]
-      intro h; exact hi64 64 h rfl
-    simp only [rafter_none hi64, hc, Bool.false_eq_true, if_false, hne']
-    rw [splitHostPort_render u hne hh hp]
-    simp only [hhost]
-    have hpw' : u.password = [] := by
-      simp only [not_or, ne_eq, Classical.not_not] at hui; exact hui.2
-    have hun' : u.username = [] := by
-      simp only [not_or, ne_eq, Classical.not_not] at hui; exact hui.1
-    simp [hun', hpw']
-
-theorem authText_chars (env : Env) (u : URL) (hh : ∀ c ∈ u.host, hostChar c = true) (hp : PortOK u)
-    (hsu : ∀ x ∈ env.nfc u.username, isScalar x = true)
-    (hsp : ∀ x ∈ env.nfc u.password, isScalar x = true) :
-    ∀ ch ∈ uiText env u ++ (u.host ++ portText u), notIn authStop ch = true := by
-  intro ch hch
-  rw [List.mem_append] at hch
-  rcases hch with hch | hch
-  · unfold uiText at hch
-    split at hch
-    · simp only [List.mem_append, List.mem_singleton] at hch
-      rcases hch with (h | h) | h
-      · exact (stop_userinfo (quoteFull_stop .userinfo env.nfc u.username hsu ch h)).1
-      · split at h
-        · simp only [List.mem_cons] at h
-          rcases h with rfl | h
-          · exact auth_stops_ok.1
-          · exact (stop_userinfo (quoteFull_stop .userinfo env.nfc u.password hsp ch h)).1
-        · simp at h
-      · subst h; exact auth_stops_ok.2.1
-    · simp at hch
-  · exact (mem_hostinfo hh hp ch hch).2
-
-
-/-! ### the whole URL: render fully quoted, parse back -/
-
-/-- every text stored in the URL is encodable once normalised (no lone surrogates) -/
-structure Scalars (env : Env) (u : URL) : Prop where
-  username : ∀ x ∈ env.nfc u.username, isScalar x = true
-  password : ∀ x ∈ env.nfc u.password, isScalar x = true
-  fragment : ∀ x ∈ env.nfc u.fragment, isScalar x = true
-  parts : ∀ s ∈ u.pathParts, ∀ x ∈ env.nfc s, isScalar x = true
-  query : ∀ kv ∈ u.query, PairScalar env.nfc kv
-
-/-- "a valid scheme, host and port" + an absolute path + no (empty key, no value) parameter -/
-structure WF (env : Env) (u : URL) : Prop where
-  scheme_ne : u.scheme ≠ []
-  scheme_ok : ∀ c ∈ u.scheme, notIn schemeStop c = true
-  host_ne : u.host ≠ []
-  host_ok : ∀ c ∈ u.host, hostChar c = true
-  family_ok : u.family = if env.fam4 u.host then .inet else .none
-  idna_enc : env.idnaEnc u.host = some u.host
-  idna_dec : env.idnaDec u.host = some u.host
-  port_ok : PortOK u
-  path_abs : ∃ rest, u.pathParts = [] :: rest
-  query_ok : ∀ kv ∈ u.query, ¬ (env.nfc kv.1 = [] ∧ kv.2 = none)
-  scalars : Scalars env u
-
-/-- what comes back: every text NFC-normalised, the `//` remembered -/
-def normal (env : Env) (u : URL) : URL :=
-  { u with netlocSep := true
-           username := env.nfc u.username
-           password := env.nfc u.password
-           pathParts := u.pathParts.map env.nfc
-           query := u.query.map (normPair env.nfc)
-           fragment := env.nfc u.fragment }
-
-def fullText (env : Env) (u : URL) : Text :=
-  u.scheme ++ 58 :: 47 :: 47 :: ((uiText env u ++ (u.host ++ portText u)) ++
-    (pathText env true u.pathParts ++ (qpart (queryText env true u.query) ++
-      fpart (quotePart .fragment env.nfc true u.fragment))))
-
-theorem family_ne6 {env : Env} {u : URL} (h : u.family = if env.fam4 u.host then .inet else .none) :
-    u.family ≠ .inet6 := by
-  rw [h]; split <;> simp
-
-theorem toText_full (env : Env) (u : URL) (hW : WF env u) (hnil : env.nfc [] = []) :
-    toText env true u = .ok (fullText env u) := by
-  obtain ⟨rest, hrest⟩ := hW.path_abs
-  unfold toText
-  rw [authority_full env u hW.host_ne (family_ne6 hW.family_ok) hW.idna_enc]
-  simp only
-  congr 1
-  have hauth : uiText env u ++ u.host ++ portText u ≠ [] := by simp [hW.host_ne]
-  have hpath := pathText_abs env hnil rest
-  rw [← hrest] at hpath
-  unfold assemble fullText qpart fpart
-  simp only [hW.scheme_ne, ne_eq, not_false_eq_true, if_true, hauth, true_and]
-  have hp : (if ¬ pathText env true u.pathParts = [] then
-      (if ¬ (pathText env true u.pathParts).head? = some 47 then 47 :: pathText env true u.pathParts
-       else pathText env true u.pathParts) else []) = pathText env true u.pathParts := by
-    rcases hpath with h | h
-    · simp [h]
-    · simp [h]
-  rw [hp]
-  simp [List.append_assoc]
-
-theorem fullText_scanned (env : Env) (u : URL) (hW : WF env u) (hnil : env.nfc [] = []) :
-    Scanned (fullText env u) u.scheme (uiText env u ++ (u.host ++ portText u))
-      (pathText env true u.pathParts) (queryText env true u.query)
-      (quotePart .fragment env.nfc true u.fragment) := by
-  obtain ⟨rest, hrest⟩ := hW.path_abs
-  have hpath := pathText_abs env hnil rest
-  rw [← hrest] at hpath
-  exact scan_composed _ _ _ _ _ hW.scheme_ne hW.scheme_ok
-    (authText_chars env u hW.host_ok hW.port_ok hW.scalars.username hW.scalars.password)
-    (pathText_chars env u.pathParts hW.scalars.parts) hpath
-    (queryText_chars env u.query hW.scalars.query)
-    (fun c hc => stop_fragment (quoteFull_stop .fragment env.nfc u.fragment hW.scalars.fragment c
-      (by simpa [quotePart] using hc)))
-
-theorem isAsciiText_host {u : URL} (hh : ∀ c ∈ u.host, hostChar c = true) : isAsciiText u.host = true := by
-  unfold isAsciiText
-  rw [List.all_eq_true]
-  intro c hc
-  simpa using (hostChar_spec (hh c hc)).1
-
-/-- parsing the fully quoted rendering gives the URL back, NFC-normalised -/
-theorem ofText_fullText (env : Env) (u : URL) (hW : WF env u) (hnil : env.nfc [] = []) :
-    URL.ofText env (fullText env u) = .ok (normal env u) := by
-  have hS := fullText_scanned env u hW hnil
-  obtain ⟨rest, hrest⟩ := hW.path_abs
-  unfold URL.ofText
-  simp only [hS.scheme, hS.auth, hS.path, hS.query, hS.frag, Option.getD_some, Option.isSome_some]
-  rw [parseAuthority_render env u hW.host_ne hW.host_ok hW.port_ok hW.family_ok
-      hW.scalars.username hW.scalars.password]
-  simp only [hW.host_ne, if_false, isAsciiText_host hW.host_ok, if_true, hW.idna_dec]
-  have hparts : u.pathParts ≠ [] := by rw [hrest]; simp
-  rw [pathText_parts env u.pathParts hparts hW.scalars.parts]
-  rw [parseQsl_queryText env u.query hW.scalars.query hW.query_ok]
-  have hfrag : maybeUnquote (quotePart .fragment env.nfc true u.fragment) = env.nfc u.fragment := by
-    simpa [quotePart] using maybeUnquote_quoteFull .fragment env.nfc u.fragment hW.scalars.fragment
-  rw [hfrag]
-  have hun : maybeUnquote (if u.username ≠ [] ∨ u.password ≠ [] then quoteFull userinfoMap env.nfc u.username else [])
-      = env.nfc u.username := by
-    split
-    · exact maybeUnquote_quoteFull .userinfo env.nfc u.username hW.scalars.username
-    · rename_i h
-      simp only [not_or, ne_eq, Classical.not_not] at h
-      rw [h.1, hnil]; rfl
-  have hpw : maybeUnquote (if u.password ≠ [] then quoteFull userinfoMap env.nfc u.password else [])
-      = env.nfc u.password := by
-    split
-    · exact maybeUnquote_quoteFull .userinfo env.nfc u.password hW.scalars.password
-    · rename_i h
-      simp only [ne_eq, Classical.not_not] at h
-      rw [h, hnil]; rfl
-  rw [hun, hpw]
-  rfl
-
-
-/-! ### rendering the parsed-back URL again -/
-
-/-- what the fixed-point theorems assume of the normaliser (all true of Unicode NFC) -/
-structure NfcLaws (nfc : Text → Text) : Prop where
-  nil : nfc [] = []
-  idem : ∀ s, nfc (nfc s) = nfc s
-  ne_nil : ∀ s, nfc s = [] → s = []
-
-theorem quoteFull_idem (m : List (List Nat)) {nfc : Text → Text} (hid : ∀ s, nfc (nfc s) = nfc s) (s : Text) :
-    quoteFull m nfc (nfc s) = quoteFull m nfc s := by
-  simp [quoteFull, hid]
-
-theorem nfc_ne_iff {nfc : Text → Text} (hl : NfcLaws nfc) (s : Text) : nfc s ≠ [] ↔ s ≠ [] := by
-  constructor
-  · intro h e; rw [e, hl.nil] at h; exact h rfl
-  · intro h e; exact h (hl.ne_nil s e)
-
-theorem normal_uiText (env : Env) (hl : NfcLaws env.nfc) (u : URL) : uiText env (normal env u) = uiText env u := by
-  unfold uiText normal
-  simp only [quoteFull_idem _ hl.idem, nfc_ne_iff hl]
-
-theorem normal_pairText (env : Env) (hl : NfcLaws env.nfc) (kv : Text × Option Text) :
-    pairText env true (normPair env.nfc kv) = pairText env true kv := by
-  obtain ⟨k, v⟩ := kv
-  cases v <;> simp [pairText, normPair, quotePart, quoteFull_idem _ hl.idem]
-
-theorem normal_fullText (env : Env) (hl : NfcLaws env.nfc) (u : URL) :
-    fullText env (normal env u) = fullText env u := by
-  unfold fullText
-  rw [normal_uiText env hl u]
-  have hp : pathText env true (normal env u).pathParts = pathText env true u.pathParts := by
-    simp only [pathText, normal, List.map_map]
-    congr 1
-    apply List.map_congr_left
-    intro s _
-    simp [quotePart, quoteFull_idem _ hl.idem]
-  have hq : queryText env true (normal env u).query = queryText env true u.query := by
-    simp only [queryText, normal, List.map_map]
-    congr 1
-    apply List.map_congr_left
-    intro kv _
-    exact normal_pairText env hl kv
-  have hf : quotePart .fragment env.nfc true (normal env u).fragment = quotePart .fragment env.nfc true u.fragment := by
-    simp [normal, quotePart, quoteFull_idem _ hl.idem]
-  rw [hp, hq, hf]
-  rfl
-
-theorem normal_WF (env : Env) (hl : NfcLaws env.nfc) (u : URL) (hW : WF env u) : WF env (normal env u) where
-  scheme_ne := hW.scheme_ne
-  scheme_ok := hW.scheme_ok
-  host_ne := hW.host_ne
-  host_ok := hW.host_ok
-  family_ok := hW.family_ok
-  idna_enc := hW.idna_enc
-  idna_dec := hW.idna_dec
-  port_ok := hW.port_ok
-  path_abs := by
-    obtain ⟨rest, h⟩ := hW.path_abs
-    exact ⟨rest.map env.nfc, by simp [normal, h, hl.nil]⟩
-  query_ok := by
-    intro kv hkv
-    simp only [normal, List.mem_map] at hkv
-    obtain ⟨kv0, h0, rfl⟩ := hkv
-    intro h
-    apply hW.query_ok kv0 h0
-    simp only [normPair, hl.idem] at h
-    refine ⟨h.1, ?_⟩
-    cases hv : kv0.2 with
-    | none => rfl
-    | some v => rw [hv] at h; simp at h
-  scalars := {
-    username := by simpa [normal, hl.idem] using hW.scalars.username
-    password := by simpa [normal, hl.idem] using hW.scalars.password
-    fragment := by simpa [normal, hl.idem] using hW.scalars.fragment
-    parts := by
-      intro s hs
-      simp only [normal, List.mem_map] at hs
-      obtain ⟨s0, h0, rfl⟩ := hs
-      rw [hl.idem]; exact hW.scalars.parts s0 h0
-    query := by
-      intro kv hkv
-      simp only [normal, List.mem_map] at hkv
-      obtain ⟨kv0, h0, rfl⟩ := hkv
-      have := hW.scalars.query kv0 h0
-      refine ⟨by simpa [normPair, hl.idem] using this.1, ?_⟩
-      intro v hv
-      simp only [normPair] at hv
-      cases hv0 : kv0.2 with
-      | none => rw [hv0] at hv; simp at hv
-      | some v0 =>
-        rw [hv0] at hv
-        simp only [Option.map_some, Option.some.injEq] at hv
-        subst hv
-        rw [hl.idem]
-        exact this.2 v0 hv0 }
-
-
 end C06
